@@ -87,6 +87,7 @@ type SSH struct {
 	curDev         string // deviation of the line being answered
 	modified       bool   // running config differs from startup (IOS reload question)
 	PrepNoop       bool   // IOS: the session-preparation commands change nothing
+	InfoFor        string // IOS: accepted change commands with this prefix answer with an INFO: line
 	ReloadPending  bool
 	ReloadArmed    int // how often a reload was scheduled
 	Saved          int // successful write memory
@@ -501,6 +502,10 @@ func (s *SSH) bannerText(kind string) string {
 }
 
 func (s *SSH) iosAnswer(l, output string) {
+	if s.InfoFor != "" && output == "" && strings.HasPrefix(l, s.InfoFor) {
+		// the device accepts the command and says something about it
+		output = "INFO: entry noted\n"
+	}
 	spec, has := s.Banners[s.point]
 	if !has {
 		// a banner tied to a command text (first occurrence): independent
